@@ -65,3 +65,13 @@ pub fn wall(node: Option<u8>) -> Option<Duration> {
     let lock = WALL.lock().unwrap();
     node.and_then(|n| lock.per_node[n as usize]).or(lock.global)
 }
+
+/// Renders a timestamp as the JSON triple `[time in 4 ms units, counter, node]`.
+pub fn ts_json(ts: crate::HLCTimestamp) -> String {
+    format!(
+        "[{},{},{}]",
+        ts.seconds() * 250 + ts.fractional() as u64,
+        ts.counter(),
+        ts.node()
+    )
+}
